@@ -10,7 +10,7 @@ use std::collections::BTreeSet;
 use std::sync::atomic::Ordering;
 use std::sync::Arc;
 
-pub const COUNTERS: &[&str] = &["values", "unary_law_checks", "binary_pairs", "binary_law_checks", "single_squares", "supplementary_values"];
+pub const COUNTERS: &[&str] = &["values", "unary_law_checks", "binary_pairs", "binary_law_checks", "single_squares", "supplementary_values", "irregular_value_law_checks"];
 
 fn model(b: u64) -> BTreeSet<u8> {
     (0..64u8).filter(|s| b & (1u64 << s) != 0).collect()
@@ -144,7 +144,7 @@ fn singles(run: &Run) {
     }
 }
 
-pub const RULE: &str = "value set V = all boards with at most 2 bits, their complements, all 256 unions of ranks, all 256 unions of files, the 30 diagonals, EMPTY and !EMPTY; unary laws (iteration ascending = members, popcnt, to_square = lowest, complement owned/borrowed, reverse_colors = rank flip, Display shape) on every value; binary laws (& | ^ in all four owned/borrowed combinations, six assigning forms, ==) on ALL pairs of V x V; from_square/to_square/set inverse on 64 squares. Oracle: BTreeSet<u8>. Because the operators are bit-sliced, pairs of <=2-bit boards put every bit position through every (0/1, 0/1) combination. A seeded list of arbitrary 64-bit values is a labelled supplementary sample outside the exhaustive claim. distinct_nontrivial = distinct ordered pairs with both operands non-empty";
+pub const RULE: &str = "value set V = all boards with at most 2 bits, their complements, all 256 unions of ranks, all 256 unions of files, the 30 diagonals, EMPTY and !EMPTY; unary laws (iteration ascending = members, popcnt, to_square = lowest, complement owned/borrowed, reverse_colors = rank flip, Display shape) on every value; binary laws (& | ^ in all four owned/borrowed combinations, six assigning forms, ==) on ALL pairs of V x V; from_square/to_square/set inverse on 64 squares; irregular values enumerated systematically: every 3- and 4-bit board (unary laws), quarter sweeps (each 16-bit quarter of the board through all 65536 contents under three contexts of the other quarters: unary laws, and binary laws against 12 fixed partners in both operand orders), popcount ladders (k lowest / highest / spread bits for every k). Oracle: BTreeSet<u8>. Because the operators are bit-sliced, pairs of <=2-bit boards put every bit position through every (0/1, 0/1) combination. A seeded list of arbitrary 64-bit values is a labelled supplementary sample outside the exhaustive claim. distinct_nontrivial = distinct ordered pairs with both operands non-empty";
 
 pub fn run(tier: Tier) -> i32 {
     let run = Arc::new(Run::new("C20", tier, COUNTERS));
@@ -159,6 +159,66 @@ pub fn run(tier: Tier) -> i32 {
     let bn: u64 = v.par_iter().map(|&x| second.iter().map(|&y| if run.has_violation() { 0 } else { binary(&run, x, y) }).sum::<u64>()).sum();
     run.add("binary_pairs", pairs);
     run.add("binary_law_checks", bn);
+    // irregular values, enumerated systematically: (1) every board with 3 or 4 bits (unary laws);
+    // (2) quarter sweeps: each 16-bit quarter of the board runs through ALL 65536 contents while the
+    // other three quarters hold one of three contexts (empty, full, a fixed irregular pattern) —
+    // any predicate over up to 16 contiguous squares is hit; (3) popcount ladders: for every k in
+    // 0..=64 the boards with the k lowest, the k highest and k spread squares set.
+    let small: u64 = (0..64u64)
+        .into_par_iter()
+        .map(|a| {
+            let mut n = 0u64;
+            for b in (a + 1)..64 {
+                for c in (b + 1)..64 {
+                    n += unary(&run, (1u64 << a) | (1u64 << b) | (1u64 << c));
+                    for d in (c + 1)..64 {
+                        n += unary(&run, (1u64 << a) | (1u64 << b) | (1u64 << c) | (1u64 << d));
+                    }
+                }
+            }
+            n
+        })
+        .sum();
+    let contexts: [u64; 3] = [0, !0u64, 0x9A3C_51E7_04DB_B62Du64];
+    let partners: [u64; 12] = [0, !0u64, 0x9A3C_51E7_04DB_B62D, 0x0F0F_F0F0_3C3C_C3C3, 0x8000_0000_0000_0001, 0x00FF_0000_0000_FF00, 0x1248_8421_1248_8421, 0x5555_5555_AAAA_AAAA, 0xFFFF_FFFF_0000_0000, 0x0000_0001_FFFF_FFFE, 0x7FFF_FFFF_FFFF_FFFF, 0xDEAD_BEEF_0BAD_F00D];
+    let sweep: u64 = (0..4u32)
+        .into_par_iter()
+        .map(|q| {
+            let mut n = 0u64;
+            let shift = 16 * q;
+            let qmask = 0xFFFFu64 << shift;
+            for ctx in contexts {
+                for v in 0..65536u64 {
+                    if run.has_violation() {
+                        return n;
+                    }
+                    let x = (ctx & !qmask) | (v << shift);
+                    n += unary(&run, x);
+                    for y in partners {
+                        n += binary(&run, x, y);
+                        n += binary(&run, y, x);
+                    }
+                }
+            }
+            n
+        })
+        .sum();
+    let mut ladder = 0u64;
+    for k in 0..=64u32 {
+        let low = if k == 64 { !0u64 } else { (1u64 << k) - 1 };
+        let high = if k == 0 { 0 } else { !0u64 << (64 - k) };
+        let mut spread = 0u64;
+        for i in 0..k {
+            spread |= 1u64 << ((i as u64 * 37) % 64);
+        }
+        for x in [low, high, spread] {
+            ladder += unary(&run, x);
+            for y in partners {
+                ladder += binary(&run, x, y);
+            }
+        }
+    }
+    run.add("irregular_value_law_checks", small + sweep + ladder);
     // supplementary sample (labelled): xorshift values from the seed
     let mut s = run.seed ^ 0x9E3779B97F4A7C15;
     let mut supp = vec![];
@@ -173,7 +233,7 @@ pub fn run(tier: Tier) -> i32 {
         binary(&run, w[0], w[1]);
     }
     run.add("supplementary_values", supp.len() as u64);
-    run.evaluations.store(un + bn + 64, Ordering::Relaxed);
+    run.evaluations.store(un + bn + 64 + small + sweep + ladder, Ordering::Relaxed);
     let nonempty = v.iter().filter(|x| **x != 0).count() as u64;
     run.nontrivial.store(nonempty * second.iter().filter(|x| **x != 0).count() as u64, Ordering::Relaxed);
     run.sample(json!({"kind": "pair", "a": format!("{:#018x}", v[5]), "b": format!("{:#018x}", v[v.len() / 2]), "laws": "& | ^ in 4 ownership forms, 6 assigning forms, =="}));
